@@ -155,8 +155,14 @@ def run(tier, seed, ck=None):
         sn, _ = ensure_vars(r, low2, ['s%d' % i for i in range(4)])
         unchanged = all(q['obs']['P.' + c]['f'] == q['obs']['P0.' + c]['f'] for c in 'xyz')
         ck.ground('C01.shortcut.unchanged', 'shortcut path returns P unchanged', unchanged)
-        ans = ck.prove_batch(low2.all(), [('C01.shortcut.iff', 'the shortcut is taken only for the scalar 1 (Montgomery form of 1)', asserts(q['pc']) + '\n(assert (not (= %s %s)))' % (concat_limbs(sn), bvconst256(R % N)))], timeout=30)
+        goal = asserts(q['pc']) + '\n(assert (not (= %s %s)))' % (concat_limbs(sn), bvconst256(R % N))
+        ans = ck.prove_batch(low2.all(), [('C01.shortcut.iff', 'the shortcut is taken only for the scalar 1 (Montgomery form of 1)', goal)], timeout=30)
         failures.extend(['shortcut'] if ans[0] != 'unsat' or not unchanged else [])
+        if ans[0] == 'sat':
+            # a canonical scalar other than 1 that takes the shortcut: ask the solver for one and keep it for the replay
+            m, _ = smt.get_model(low2.all() + '\n(assert (bvult %s %s))\n' % (concat_limbs(sn), bvconst256(N)) + goal, sn)
+            if m:
+                ck.extra.setdefault('_steer', []).append(unlimbs([m[x] for x in sn]) * pow(R, -1, N) % N)
     r = R_['nil']
     okn = len(r.paths) == 1 and r.paths[0]['end'] == 'return'
     if not ck.ground('C01.nil.shape', 'Multiply(nil): single returning path', okn):
@@ -182,7 +188,7 @@ def signed64(v):
 def battery(ck, failures):
     import random
     rng = random.Random(ck.seed + 21)
-    ks = [0, 1, 2, 3, N - 1, N - 2, 2**255, 2**255 + 1, 2**254, (1 << 256) % N, 2**128, 2**64 - 1, (N - 1) // 2] + [rng.randrange(N) for _ in range(6)]
+    ks = list(ck.extra.get('_steer', [])) + [0, 1, 2, 3, N - 1, N - 2, 2**255, 2**255 + 1, 2**254, (1 << 256) % N, 2**128, 2**64 - 1, (N - 1) // 2] + [rng.randrange(N) for _ in range(6)]
     import re
     for f in failures:
         m = re.match(r'C01\.iter(\d+)', f)
